@@ -99,8 +99,17 @@ def run(rep, tier, seed):
     classes = {}
     distinct_fail = {}
     batch = 4000
-    budget = {"hangs": 24}          # each hang costs a deadline; with this many found the verdict is settled
+    budget = {"hangs": 12}          # each hang costs a deadline; with this many found the verdict is settled
     skipped = 0
+
+    def confirm(cid, text):
+        """the outcome of one text run on its own with a long deadline (a stall of a busy machine is not a hang)"""
+        c = {"id": cid + "!", "kind": "front", "srcs": [text]}
+        r = core.run_cases([c], deadline_ms=20000, shards=1, _confirm=False)[c["id"]]
+        if r.get("how") == "ok":
+            return r["outs"][0]
+        budget["hangs"] -= 1
+        return "H" + str(r.get("how"))
 
     def run_batch(cid, part):
         """outcomes of the texts of one batch; a hang inside the batch costs one per-text deadline, the rest of
@@ -116,15 +125,14 @@ def run(rep, tier, seed):
             k += 1
             if r.get("how") == "ok":
                 return outs + r["outs"]
-            budget["hangs"] -= 1
             if r.get("how") == "timeout" and "done_outs" in r:
                 done = r["done_outs"]
-                outs += done + ["Htimeout"]
+                outs += done + [confirm(c["id"], rest[len(done)])]
                 rest = rest[len(done) + 1:]
             else:
                 # the process died (abort, stack overflow) without saying where: bisect by halves
                 if len(rest) == 1:
-                    outs.append("H" + str(r.get("how")))
+                    outs.append(confirm(c["id"], rest[0]))
                     rest = []
                 else:
                     half = len(rest) // 2
@@ -144,9 +152,8 @@ def run(rep, tier, seed):
             if r.get("how") == "ok":
                 outs = r["outs"]
             elif r.get("how") == "timeout" and "done_outs" in r:
-                budget["hangs"] -= 1
                 done = r["done_outs"]
-                outs = done + ["Htimeout"] + run_batch(c["id"], part[len(done) + 1:])
+                outs = done + [confirm(c["id"], part[len(done)])] + run_batch(c["id"], part[len(done) + 1:])
             else:
                 outs = run_batch(c["id"], part)
             for s, o in zip(part, outs):
@@ -192,7 +199,8 @@ def end_to_end(rep, rnd, tier, progs_src, special):
              and "read" not in t]
     jobs = []
     for t in texts:
-        jobs.append((["-c", "puts(\"RAN-PROBE\");\n" + t], b"", {"timeout": 8}))
+        # (a text whose probe ran is a program that runs long: no second attempt for those)
+        jobs.append((["-c", "puts(\"RAN-PROBE\");\n" + t], b"", {"timeout": 10, "retry_if": lambda r: b"RAN-PROBE" not in r["out"]}))
     results = e2e.run_many(jobs)
     recs = []
     for i, (t, r) in enumerate(zip(texts, results)):
